@@ -175,13 +175,13 @@ def gen_model(rng, max_levels, body_stmts):
         counter[0] += 1
         return '%s%d' % (stem, counter[0])
 
-    def make_body(sig, calls, rec, self_cls, pure, attr=None):
+    def make_body(sig, calls, rec, self_cls, pure, attr=None, chain=None):
         g = G.ProgGen(r.fork('body', sig['name']) if hasattr(r, 'fork') else r, max_stmts=r.randint(2, body_stmts),
                       max_depth=r.choice([1, 1, 2]), params=sig['params'], calls=calls, self_cls=self_cls,
                       derived=[d for d in derived if attr is None or d[1] != attr],
                       allow_delete=False, allow_mutation=not pure, enums=enums, consts=gen_consts, schema=SCHEMA,
                       ret_ty=sig['ret'], rec_call=rec, derived_attr=attr, create_in_loops=False,
-                      max_call_sites=r.choice([1, 2, 2, 3]))
+                      max_call_sites=r.choice([1, 2, 2, 3]), derived_chain=chain)
         prog = g.gen_program()
         return prog, G.render(prog, g.uppercase)
 
@@ -227,6 +227,7 @@ def gen_model(rng, max_levels, body_stmts):
             sig['recursive'] = recursive
             sig['level'] = level
             new.append(sig)
+        helpers = []
         for j, sig in enumerate(new):
             avail = [c for c in lower if c['kind'] != 'derived' and (c['pure'] or not sig['pure'])]
             r.shuffle(avail)
@@ -241,11 +242,26 @@ def gen_model(rng, max_levels, body_stmts):
                     rec = sig
             self_cls = sig['ns'] if sig['kind'] in ('instop', 'derived') else None
             # derived attributes are read wherever an attribute is read: count them as cheap callees
+            chain = None
+            if sig['kind'] == 'derived' and sig['ret'] == 'integer' and r.random() < 0.6:
+                # the derivation follows a chain of instances and reads the same attribute there
+                helper = None
+                if r.random() < 0.5:
+                    helper = 'get_' + sig['name']
+                chain = (sig['name'], helper)
+                sig['chain'] = True
             if sig['kind'] == 'derived':
-                body, text = make_body(sig, avail, None, self_cls, True, attr=sig['name'])
+                body, text = make_body(sig, avail, None, self_cls, True, attr=sig['name'], chain=chain)
             else:
                 body, text = make_body(sig, avail, rec, self_cls, sig['pure'])
             cost = 1 + body_cost(body, cost_of)
+            if chain is not None:
+                cost *= 5
+                if chain[1] is not None:
+                    hb = [['return', ['attr', ['self'], sig['name']]]]
+                    hsig = _sig('instop', chain[1], sig['ns'], [], 'integer', True)
+                    hsig.update(recursive=False, level=level, body=hb, text=G.render(hb), cost=cost)
+                    helpers.append(hsig)
             if sig.get('recursive'):
                 cost *= 4
             if cost > COST_LIMIT:
@@ -253,10 +269,10 @@ def gen_model(rng, max_levels, body_stmts):
                 sig['recursive'] = False
                 sig['params'] = [p for p in sig['params']]
                 if sig['kind'] == 'derived':
-                    body, text = make_body(sig, [], None, self_cls, True, attr=sig['name'])
+                    body, text = make_body(sig, [], None, self_cls, True, attr=sig['name'], chain=chain)
                 else:
                     body, text = make_body(sig, [], None, self_cls, sig['pure'])
-                cost = 1 + body_cost(body, cost_of)
+                cost = (1 + body_cost(body, cost_of)) * (5 if chain is not None else 1)
             sig['cost'] = cost
             sig['body'] = body
             sig['text'] = text
@@ -267,8 +283,9 @@ def gen_model(rng, max_levels, body_stmts):
             both = sum(sig['cost'] for sig in new)
             for sig in new:
                 costs[sig['name']] = both
-        for sig in new:
+        for sig in new + helpers:
             callables.append(sig)
+            costs[sig['name']] = sig['cost']
             if sig['kind'] == 'derived':
                 derived.append((sig['ns'], sig['name'], sig['ret']))
     return callables, enums, consts
@@ -292,13 +309,17 @@ def gen_population(rng):
     pop = {'inst': {}, 'links': []}
     for cls in SCHEMA['order']:
         rows = []
-        for i in range(rng.choice([0, 1, 2, 2, 3])):
+        count = rng.choice([0, 1, 2, 2, 3, 4])
+        chain = rng.random() < 0.5
+        for i in range(count):
             row = {}
             for a, t, ref in SCHEMA['classes'][cls]:
                 if a == 'ID':
                     continue
                 if t == 'integer':
                     row[a] = rng.choice([0, 1, 2, 3, 5, -1, -4, 9])
+                    if chain:
+                        row[a] = (count - 1 - i) if rng.random() < 0.5 else i      # n = 0, 1, 2, …: a chain of instances
                 elif t == 'string':
                     row[a] = rng.choice(G.STRINGS)
                 else:
@@ -348,10 +369,15 @@ def gen_entries(rng, callables, enums, consts, pop):
                 entries.append(['iop', c['ns'], idx, c['name'], kw])
             else:
                 entries.append(['dattr', c['ns'], idx, c['name']])
-    # read every derived attribute again at the end: a state change in between must show
+    # derived attributes: read, change the instance from Python, read again - the second read must see the change
     for c in callables:
-        if c['kind'] == 'derived' and pop['inst'][c['ns']] and r.random() < 0.7:
-            entries.append(['dattr', c['ns'], r.randrange(len(pop['inst'][c['ns']])), c['name']])
+        if c['kind'] == 'derived' and pop['inst'][c['ns']] and r.random() < 0.8:
+            idx = r.randrange(len(pop['inst'][c['ns']]))
+            entries.append(['dattr', c['ns'], idx, c['name']])
+            entries.append(['set', c['ns'], idx, 'n', r.choice([11, -6, 4, 25])])
+            if r.random() < 0.5:
+                entries.append(['set', c['ns'], idx, 's', r.choice(['q', 'zz', ''])])
+            entries.append(['dattr', c['ns'], idx, c['name']])
     return entries
 
 
@@ -375,6 +401,9 @@ def _entry_sexp(e):
         return [Sym('dattr'), [Sym('i'), e[1], e[2]], e[3]]
     if k == 'enum':
         return [Sym('enum'), e[1], e[2]]
+    if k == 'set':
+        v = e[4]
+        return [Sym('set'), [Sym('i'), e[1], e[2]], e[3], (Sym('T') if v is True else Sym('F') if v is False else v)]
     return [Sym('const'), e[1]]
 
 
@@ -604,6 +633,9 @@ def run_impl(case):
                 values.append(getattr(insts[e[1]][e[2]], e[3])(**e[4]))
             elif k == 'dattr':
                 values.append(getattr(insts[e[1]][e[2]], e[3]))
+            elif k == 'set':
+                setattr(insts[e[1]][e[2]], e[3], e[4])
+                values.append(None)
             elif k == 'enum':
                 values.append(getattr(domain.find_symbol(e[1]), e[2]))
             else:
@@ -620,7 +652,7 @@ def run_impl(case):
                 if a != b:
                     e = case['entries'][k]
                     comp = 'value:' + {'fn': 'function', 'brg': 'bridge', 'cop': 'class-operation', 'iop': 'instance-operation',
-                                       'dattr': 'derived-attribute', 'enum': 'enumerator', 'const': 'constant'}[e[0]]
+                                       'dattr': 'derived-attribute', 'enum': 'enumerator', 'const': 'constant', 'set': 'attribute-write'}[e[0]]
                     what = 'invocation #%d %r delivered %r, the bodies specify %r' % (k, e, a, b)
                     break
         elif obs[3] != exp[3]:
@@ -693,7 +725,7 @@ def shrink_candidates(case):
     # smaller populations
     for cls in SCHEMA['order']:
         rows = case['pop']['inst'][cls]
-        if rows and not any(e[0] in ('iop', 'dattr') and e[1] == cls and e[2] == len(rows) - 1 for e in entries):
+        if rows and not any(e[0] in ('iop', 'dattr', 'set') and e[1] == cls and e[2] == len(rows) - 1 for e in entries):
             pop = {'inst': dict(case['pop']['inst']), 'links': []}
             pop['inst'][cls] = rows[:-1]
             cases.append(make_case(case.get('id'), callables, case['enums'], case['consts'], pop, entries, case['shuffle']))
